@@ -1,1 +1,295 @@
-(* placeholder *)
+(* C06  The RIB's change stream reproduces the RIB.  Statements only: each
+   theorem is closed by [exact], pinned by [Check] and followed by
+   [Print Assumptions].
+
+   Vocabulary (Spec/RibSpec.v): [elig_of t net] is the ranked list of eligible
+   paths of a prefix ([] when the prefix is absent), [locrib_view t net] the same
+   read off collect_loc_rib_paths, [id_of t net] the destination id of a live
+   prefix, [step_t t o] / [step_cs t o] the table and the notifications produced
+   by one operation, [consume app t s ops] runs a history and folds every
+   notification into a consumer, [startup_deferral t ops] (start_deferral is issued
+   only while the family holds no route), [consistent ops] (a Source token always denotes
+   the same remote address) and [bounded t ops] (fewer than 2^24 destinations in
+   the shard whenever an operation starts: the allocator's own debug_assert). *)
+From Coq Require Import List NArith ZArith Bool.
+From RB Require Import Base.Val Model.Rib Spec.RibSpec Proofs.RibInv2 Proofs.RibC02 Proofs.RibC06 Proofs.RibC06b.
+Import ListNotations.
+Open Scope N_scope.
+
+(* After any history the destination ids of the live prefixes are pairwise distinct,
+   and the allocator's used set is exactly the set of their local ids (no freed id
+   is live, no live id is free). *)
+Theorem dest_ids_unique :
+  forall shard ops,
+    bounded (empty_table shard) ops ->
+    let t := run (empty_table shard) ops in
+    NoDup (map (fun nd => d_id (snd nd)) (t_dests t))
+    /\ NoDup (t_used t)
+    /\ (forall l, In l (t_used t) <->
+                  l < 16777216 /\ exists net d, In (net, d) (t_dests t) /\ d_id d = dest_id shard l).
+Proof. exact C06_dest_ids_unique. Qed.
+Check dest_ids_unique :
+  forall shard ops,
+    bounded (empty_table shard) ops ->
+    let t := run (empty_table shard) ops in
+    NoDup (map (fun nd => d_id (snd nd)) (t_dests t))
+    /\ NoDup (t_used t)
+    /\ (forall l, In l (t_used t) <->
+                  l < 16777216 /\ exists net d, In (net, d) (t_dests t) /\ d_id d = dest_id shard l).
+Print Assumptions dest_ids_unique.
+
+(* Every notification of every operation (insert, replace, remove, drop, purges,
+   stale / LLGR marking, next-hop flips, end of deferral) carries the prefix's new
+   ranked eligible list ([] when the prefix is gone) and the prefix's destination id. *)
+Theorem change_carries_current_list :
+  forall shard ops o c,
+    consistent (ops ++ [o]) ->
+    let t := run (empty_table shard) ops in
+    In c (step_cs t o) ->
+    c_paths c = elig_of (step_t t o) (c_net c)
+    /\ Some (c_dest_id c) = match id_of (step_t t o) (c_net c) with
+                            | Some i => Some i
+                            | None => id_of t (c_net c)
+                            end.
+Proof. exact C06_change_carries_current_list. Qed.
+Check change_carries_current_list :
+  forall shard ops o c,
+    consistent (ops ++ [o]) ->
+    let t := run (empty_table shard) ops in
+    In c (step_cs t o) ->
+    c_paths c = elig_of (step_t t o) (c_net c)
+    /\ Some (c_dest_id c) = match id_of (step_t t o) (c_net c) with
+                            | Some i => Some i
+                            | None => id_of t (c_net c)
+                            end.
+Print Assumptions change_carries_current_list.
+
+(* The flags are sound for skipping.  If every notification an operation emits for a
+   prefix says best_changed = false (in particular if there is none), the content
+   (source, attribute block, next hop) of the prefix's best path did not change; if
+   every one says any_changed = false, the eligible list did not change.  (One
+   operation may emit several notifications for a prefix: restale_llgr names every
+   marked path; they all carry the same list.) *)
+Theorem skip_flags_sound :
+  forall shard ops o net,
+    consistent (ops ++ [o]) ->
+    let t := run (empty_table shard) ops in
+    t_deferring t = false ->
+    ((forall c, In c (step_cs t o) -> c_net c = net -> c_best_changed c = false) ->
+     head_content (elig_of t net) = head_content (elig_of (step_t t o) net))
+    /\ ((forall c, In c (step_cs t o) -> c_net c = net -> c_any_changed c = false) ->
+        elig_of t net = elig_of (step_t t o) net).
+Proof. exact C06_skip_flags_sound. Qed.
+Check skip_flags_sound :
+  forall shard ops o net,
+    consistent (ops ++ [o]) ->
+    let t := run (empty_table shard) ops in
+    t_deferring t = false ->
+    ((forall c, In c (step_cs t o) -> c_net c = net -> c_best_changed c = false) ->
+     head_content (elig_of t net) = head_content (elig_of (step_t t o) net))
+    /\ ((forall c, In c (step_cs t o) -> c_net c = net -> c_any_changed c = false) ->
+        elig_of t net = elig_of (step_t t o) net).
+Print Assumptions skip_flags_sound.
+
+(* When the family is not deferring, a prefix for which an operation emits no
+   notification keeps its eligible list. *)
+Theorem silent_prefix_unchanged :
+  forall shard ops o net,
+    consistent (ops ++ [o]) ->
+    let t := run (empty_table shard) ops in
+    t_deferring t = false ->
+    (forall c, In c (step_cs t o) -> c_net c <> net) ->
+    elig_of t net = elig_of (step_t t o) net.
+Proof. exact C06_silent_prefix_unchanged. Qed.
+Check silent_prefix_unchanged :
+  forall shard ops o net,
+    consistent (ops ++ [o]) ->
+    let t := run (empty_table shard) ops in
+    t_deferring t = false ->
+    (forall c, In c (step_cs t o) -> c_net c <> net) ->
+    elig_of t net = elig_of (step_t t o) net.
+Print Assumptions silent_prefix_unchanged.
+
+(* Folding every notification of any history in which start_deferral is issued only
+   on an empty family gives exactly collect_loc_rib_paths whenever the family is not
+   deferring (in particular right after end_deferral). *)
+Theorem fold_all_changes_eq_locrib :
+  forall shard ops,
+    consistent ops -> startup_deferral (empty_table shard) ops ->
+    let t := run (empty_table shard) ops in
+    t_deferring t = false ->
+    forall net, snd (consume full_apply (empty_table shard) (fun _ => []) ops) net = locrib_view t net.
+Proof. exact C06_fold_all_changes_eq_locrib. Qed.
+Check fold_all_changes_eq_locrib :
+  forall shard ops,
+    consistent ops -> startup_deferral (empty_table shard) ops ->
+    let t := run (empty_table shard) ops in
+    t_deferring t = false ->
+    forall net, snd (consume full_apply (empty_table shard) (fun _ => []) ops) net = locrib_view t net.
+Print Assumptions fold_all_changes_eq_locrib.
+
+(* A consumer that skips notifications flagged best_changed = false still holds
+   the content of every prefix's best path. *)
+Theorem best_only_consumer_correct :
+  forall shard ops,
+    consistent ops -> startup_deferral (empty_table shard) ops ->
+    let t := run (empty_table shard) ops in
+    t_deferring t = false ->
+    forall net, snd (consume best_apply (empty_table shard) (fun _ => None) ops) net
+                = head_content (locrib_view t net).
+Proof. exact C06_best_only_consumer_correct. Qed.
+Check best_only_consumer_correct :
+  forall shard ops,
+    consistent ops -> startup_deferral (empty_table shard) ops ->
+    let t := run (empty_table shard) ops in
+    t_deferring t = false ->
+    forall net, snd (consume best_apply (empty_table shard) (fun _ => None) ops) net
+                = head_content (locrib_view t net).
+Print Assumptions best_only_consumer_correct.
+
+(* An add-path consumer with a window of n paths (None: all) that skips
+   notifications flagged any_changed = false still holds the first n eligible paths. *)
+Theorem addpath_consumer_correct :
+  forall shard ops n,
+    consistent ops -> startup_deferral (empty_table shard) ops ->
+    let t := run (empty_table shard) ops in
+    t_deferring t = false ->
+    forall net, snd (consume (addpath_apply n) (empty_table shard) (fun _ => limit n []) ops) net
+                = limit n (locrib_view t net).
+Proof. exact C06_addpath_consumer_correct. Qed.
+Check addpath_consumer_correct :
+  forall shard ops n,
+    consistent ops -> startup_deferral (empty_table shard) ops ->
+    let t := run (empty_table shard) ops in
+    t_deferring t = false ->
+    forall net, snd (consume (addpath_apply n) (empty_table shard) (fun _ => limit n []) ops) net
+                = limit n (locrib_view t net).
+Print Assumptions addpath_consumer_correct.
+
+(* end_deferral clears the flag and reports every destination exactly once, with its
+   eligible list (an empty list is a withdrawal), its id and both flags set; folding
+   these reports alone gives the whole Loc-RIB. *)
+Theorem end_deferral_emits_all :
+  forall shard ops,
+    let t := run (empty_table shard) ops in
+    let t' := step_t t EndDeferral in
+    let cs := step_cs t EndDeferral in
+    t_deferring t' = false
+    /\ NoDup (map c_net cs)
+    /\ (forall net, (exists c, In c cs /\ c_net c = net) <-> id_of t' net <> None)
+    /\ (forall c, In c cs -> c_paths c = elig_of t' (c_net c) /\ id_of t' (c_net c) = Some (c_dest_id c)
+                             /\ c_best_changed c = true /\ c_any_changed c = true)
+    /\ (forall net, fold_left full_apply cs (fun _ => []) net = locrib_view t' net).
+Proof. exact C06_end_deferral_emits_all. Qed.
+Check end_deferral_emits_all :
+  forall shard ops,
+    let t := run (empty_table shard) ops in
+    let t' := step_t t EndDeferral in
+    let cs := step_cs t EndDeferral in
+    t_deferring t' = false
+    /\ NoDup (map c_net cs)
+    /\ (forall net, (exists c, In c cs /\ c_net c = net) <-> id_of t' net <> None)
+    /\ (forall c, In c cs -> c_paths c = elig_of t' (c_net c) /\ id_of t' (c_net c) = Some (c_dest_id c)
+                             /\ c_best_changed c = true /\ c_any_changed c = true)
+    /\ (forall net, fold_left full_apply cs (fun _ => []) net = locrib_view t' net).
+Print Assumptions end_deferral_emits_all.
+
+(* While the family is deferring no mutator (insert, remove, drop, purges, stale
+   marking, next-hop flips) reports anything. *)
+Theorem quiet_while_deferring :
+  forall shard ops o,
+    let t := run (empty_table shard) ops in
+    t_deferring t = true -> o <> EndDeferral -> step_cs t o = [].
+Proof. exact C06_quiet_while_deferring. Qed.
+Check quiet_while_deferring :
+  forall shard ops o,
+    let t := run (empty_table shard) ops in
+    t_deferring t = true -> o <> EndDeferral -> step_cs t o = [].
+Print Assumptions quiet_while_deferring.
+
+(* The add-path consumer with a window of m paths holds exactly what
+   collect_loc_rib_paths_limited(m) returns. *)
+Theorem addpath_window_eq_limited :
+  forall shard ops m,
+    consistent ops -> startup_deferral (empty_table shard) ops ->
+    let t := run (empty_table shard) ops in
+    t_deferring t = false ->
+    forall net, snd (consume (addpath_apply (Some (N.to_nat m))) (empty_table shard) (fun _ => []) ops) net
+                = locrib_view_limited t m net.
+Proof. exact C06_addpath_window_eq_limited. Qed.
+Check addpath_window_eq_limited :
+  forall shard ops m,
+    consistent ops -> startup_deferral (empty_table shard) ops ->
+    let t := run (empty_table shard) ops in
+    t_deferring t = false ->
+    forall net, snd (consume (addpath_apply (Some (N.to_nat m))) (empty_table shard) (fun _ => []) ops) net
+                = locrib_view_limited t m net.
+Print Assumptions addpath_window_eq_limited.
+
+(* replaced_path_id of an insert names the path with the same (peer address, remote
+   path id) that was replaced; the new path takes over that local path id and no
+   other path of the prefix has it; None means the peer had no such path. *)
+Theorem replaced_path_id_sound :
+  forall shard ops s net rpid nh a filt nhinv lim c,
+    let t := run (empty_table shard) ops in
+    let o := Insert s net rpid nh a filt nhinv lim in
+    In c (step_cs t o) ->
+    match c_replaced c with
+    | Some p =>
+        (exists old, In old (entries_of t net) /\ ekey old = (s_addr s, rpid) /\ e_lpid old = p)
+        /\ (forall e, In e (entries_of (step_t t o) net) -> e_lpid e = p -> ekey e = (s_addr s, rpid))
+    | None =>
+        forall old, In old (entries_of t net) -> ekey old <> (s_addr s, rpid)
+    end.
+Proof. exact C06_replaced_path_id. Qed.
+Check replaced_path_id_sound :
+  forall shard ops s net rpid nh a filt nhinv lim c,
+    let t := run (empty_table shard) ops in
+    let o := Insert s net rpid nh a filt nhinv lim in
+    In c (step_cs t o) ->
+    match c_replaced c with
+    | Some p =>
+        (exists old, In old (entries_of t net) /\ ekey old = (s_addr s, rpid) /\ e_lpid old = p)
+        /\ (forall e, In e (entries_of (step_t t o) net) -> e_lpid e = p -> ekey e = (s_addr s, rpid))
+    | None =>
+        forall old, In old (entries_of t net) -> ekey old <> (s_addr s, rpid)
+    end.
+Print Assumptions replaced_path_id_sound.
+
+(* Local path ids are pairwise distinct inside every destination. *)
+Theorem lpids_unique :
+  forall shard ops net, NoDup (map e_lpid (entries_of (run (empty_table shard) ops) net)).
+Proof. exact C06_lpids_unique. Qed.
+Check lpids_unique :
+  forall shard ops net, NoDup (map e_lpid (entries_of (run (empty_table shard) ops) net)).
+Print Assumptions lpids_unique.
+
+(* A path that stays in a prefix's list under the same local path id keeps its
+   content unless the notification names that id in replaced_path_id: an exporter
+   that re-sends only ids new to it and the named one stays in step with the RIB. *)
+Theorem delta_exporter_sound :
+  forall shard ops o c e e',
+    consistent (ops ++ [o]) ->
+    let t := run (empty_table shard) ops in
+    In c (step_cs t o) ->
+    In e (elig_of t (c_net c)) -> In e' (c_paths c) ->
+    e_lpid e = e_lpid e' -> c_replaced c <> Some (e_lpid e') ->
+    content e = content e'.
+Proof. exact C06_delta_exporter_sound. Qed.
+Check delta_exporter_sound :
+  forall shard ops o c e e',
+    consistent (ops ++ [o]) ->
+    let t := run (empty_table shard) ops in
+    In c (step_cs t o) ->
+    In e (elig_of t (c_net c)) -> In e' (c_paths c) ->
+    e_lpid e = e_lpid e' -> c_replaced c <> Some (e_lpid e') ->
+    content e = content e'.
+Print Assumptions delta_exporter_sound.
+
+(* IdAllocator::alloc returns the lowest local id that is not in use. *)
+Theorem alloc_lowest_free :
+  forall used, ~ In (alloc_id used) used /\ forall j, j < alloc_id used -> In j used.
+Proof. exact C06_alloc_lowest_free. Qed.
+Check alloc_lowest_free :
+  forall used, ~ In (alloc_id used) used /\ forall j, j < alloc_id used -> In j used.
+Print Assumptions alloc_lowest_free.
